@@ -66,6 +66,11 @@ def run(ctx):
             ctx.ob("R-SIB", f, "kraus-list classifier", None, "classifier test not found (delegated?)", required=False)
             continue
         eqv = bool_equiv(core, canon)
+        if not eqv and isinstance(node, ast.If) and node.orelse and bool_equiv(core, resort(Normalizer(m, f)._not(canon))):
+            # the same test written with its branches exchanged: the branch taken when the family is NOT flat must be the one
+            # that reads both members of each pair (a constant index 1), the flat branch must not
+            idx1 = lambda stmts: any(isinstance(x, ast.Subscript) and isinstance(x.slice, ast.Constant) and x.slice.value == 1 for s_ in stmts for x in ast.walk(s_))  # noqa: E731
+            eqv = idx1(node.body) and not idx1(node.orelse)
         ctx.ob("R-SIB", f, "kraus-list classifier", eqv,
                "flat iff len(p[0]) == 1 or (len(p) == 1 and len(p[0]) > 2)" if eqv else
                f"classifier {show(core)} differs from the shared rule {show(canon)}", node)
